@@ -90,5 +90,11 @@ pub fn explore<T, A>(
         // smallest alternative at the earliest point comes first
         stack[start ..].reverse();
     }
+    // the bound that was explored completely for this case (the merge keeps the minimum over cases)
+    if !ctx.counters.caps_hit.iter().any(|c| c.contains(&ctx.case_label)) {
+        let b = if cfg.bound == usize::MAX { 1_000_000 } else { cfg.bound as u64 };
+        let e = ctx.counters.bound_completed.entry("deviation_bound_completed_min_over_cases".to_string()).or_insert(b);
+        *e = (*e).min(b);
+    }
     crate::crumb::done();
 }
